@@ -1,3 +1,2 @@
--- This module serves as the root of the `Dm` library.
--- Import modules here that should be built as part of the library.
-import Dm.Basic
+import Dm.Model.FmtParse
+import Dm.Model.StdFmt
